@@ -114,6 +114,28 @@ pub fn run(seed: u64, count: usize, thorough: bool, out: &mut Out) {
         t.remove(i);
         emit(out, ciftext::join(&t).as_bytes(), rng.below(8), rng.below(3), "token:deleted");
     }
+    // 2b. long lines with characters of several bytes at every offset around the 100th byte of what follows a token
+    //     (diagnostics and look-aheads show the rest of the line: cut at a byte count, not inside a character)
+    {
+        let lines: Vec<&str> = base.lines().collect();
+        let targets: Vec<usize> = (0..lines.len()).filter(|k| !lines[*k].starts_with(';') && !lines[*k].is_empty()).collect();
+        // (every line for the offsets around 100, a sample of lines for the others)
+        let pairs: Vec<(usize, usize)> = (60..=130usize)
+            .flat_map(|n| if (92..=104).contains(&n) { targets.iter().map(|t| (n, *t)).collect::<Vec<_>>() } else { vec![(n, targets[(n * 7) % targets.len()])] })
+            .collect();
+        for (n, at) in pairs {
+            let mut t: Vec<String> = lines.iter().map(|l| l.to_string()).collect();
+            t[at] = format!("{} # {}{}{}", t[at], "-".repeat(n), *rng.pick(&["\u{c5}", "\u{c5}\u{c5}", "\u{1F600}"]), "-".repeat(30));
+            emit(out, (t.join("\n") + "\n").as_bytes(), rng.below(8), rng.below(3), "long-line-nonascii");
+            // and with a further item after the last loop (the look-ahead that ends the loop meets a tag, not the end of the input)
+            emit(out, (t.join("\n") + "\n_tail.item 1\n").as_bytes(), rng.below(8), rng.below(3), "long-line-nonascii+item");
+            // the same without a data block in front (the first diagnostic quotes the first line)
+            if n % 4 == 0 {
+                let first = format!("{}{}{} _x 1\n", "y".repeat(n), "\u{c5}", "z".repeat(20));
+                emit(out, first.as_bytes(), rng.below(8), rng.below(3), "long-first-line-nonascii");
+            }
+        }
+    }
     // 3. structural faults, every level; all option sets on a sample
     for (name, text) in ciftext::structural_faults(&base) {
         let class = name.split('-').next().unwrap_or("x").to_string();
